@@ -28,7 +28,7 @@ def cvx_args(pr, rng, sparseG=False, sparseA=False, junk=False, sparseP=False):
     if junk:
         G = gp.add_junk(rng, G, pr.dims)
         h = gp.add_junk(rng, h, pr.dims)
-    a = {"c": mk(pr.c), "G": mk(G, sparseG, rng if sparseG else None), "h": mk(h),
+    a = {"c": mk(pr.c), "G": mk(G, sparseG, rng if (sparseG and not getattr(pr, "pl", {}).get("structurally-sparse")) else None), "h": mk(h),
          "dims": pr.dims.asdict(), "A": mk(pr.A, sparseA), "b": mk(pr.b)}
     if pr.P is not None:
         P = np.array(pr.P)
